@@ -7,6 +7,8 @@ discoverable), a required flag and a body: a sequence of ops
     ('RI', name)                read an input     (own 'p'/'q', foreign 'b.p', instance 'm:1.p', absent 'zz.p')
     ('G', op)                   if i['p']: op     (conditional / late-discovered dependency)
     ('NI',)                     not_implemented()
+    ('HI', name) / ('HV', line) `name in i` / `line in v`   (membership on a Mapping is decided by reading)
+    ('GV', line)                v.get(line, default)        (the default is for KeyError only)
 
 The value of a line is an injective rendering of everything it read, so a
 stale, partial or overwritten read changes it.
@@ -36,6 +38,12 @@ def _mk_line_fn(body):
                 acc.append(f'p?{g!r}')
                 if g:
                     ex(op[1])
+            elif op[0] == 'HI':        # membership test on the inputs (a Mapping: decided by reading)
+                acc.append(f'{op[1]} in i={op[1] in i}')
+            elif op[0] == 'HV':        # membership test on the values
+                acc.append(f'{op[1]} in v={op[1] in v}')
+            elif op[0] == 'GV':        # Mapping.get with a default: the default is for a KeyError only
+                acc.append(f'{op[1]}.get=<{v.get(op[1], "dflt")}>')
             elif op[0] == 'NI':
                 self.not_implemented()
             else:
@@ -91,8 +99,19 @@ NAMINGS = {
 }
 
 
+def base_names(place, naming='plain'):
+    if naming == 'perform':
+        # numbered within each form: lines of different forms share their base names (a.1, a.2, b.1)
+        seen, out = {}, []
+        for f, _ in place:
+            seen[f] = seen.get(f, 0) + 1
+            out.append(str(seen[f]))
+        return out
+    return [NAMINGS[naming](k) for k in range(len(place))]
+
+
 def line_names(place, naming='plain'):
-    return [f'{f}.{NAMINGS[naming](k)}' for k, (f, _) in enumerate(place)]
+    return [f'{f}.{b}' for (f, _), b in zip(place, base_names(place, naming))]
 
 
 def ops_for(place, k, rich=True, naming='plain'):
@@ -108,6 +127,8 @@ def ops_for(place, k, rich=True, naming='plain'):
     ops += [('RI', f'{other}.p'), ('RI', 'm:1.p'), ('RL', 'm:0.p')]
     if rich:
         ops += [('RL', 'zz.1'), ('RI', 'zz.p'), ('G', ('RL', 'zz.1')), ('RL', f'{own}.99'), ('RI', 'nope')]
+        nxt = names[(k + 1) % len(names)]
+        ops += [('HI', 'q'), ('HV', nxt), ('GV', nxt)]
     return ops
 
 
@@ -120,7 +141,7 @@ def bodies(ops, kmax):
 def _targets(op):
     if op[0] == 'G':
         return _targets(op[1])
-    if op[0] == 'RL':
+    if op[0] in ('RL', 'HV', 'GV'):
         return [op[1]]
     return []
 
@@ -160,7 +181,8 @@ def programs(n, kmax_per_line, total_ops=None, rich=True, forms=('a', 'b'), nami
         lens = [lv for lv in itertools.product(range(kmax_per_line + 1), repeat=n)
                 if total_ops is None or sum(lv) <= total_ops]
         for combo in (c for lv in lens for c in itertools.product(*[bylen[k][lv[k]] for k in range(n)])):
-            prog = [dict(form=place[k][0], name=NAMINGS[naming](k), req=place[k][1], body=combo[k]) for k in range(n)]
+            bn = base_names(place, naming)
+            prog = [dict(form=place[k][0], name=bn[k], req=place[k][1], body=combo[k]) for k in range(n)]
             if len(reachable(prog)) < n:
                 continue
             yield prog
@@ -171,7 +193,7 @@ def mentioned_inputs(prog):
     out = {}
 
     def visit(op, form):
-        if op[0] == 'RI':
+        if op[0] in ('RI', 'HI'):
             full = op[1] if '.' in op[1] else f'{form}.{op[1]}'
             out.setdefault(full, False)
         elif op[0] == 'G':
